@@ -75,6 +75,31 @@ pub fn handle(op: &str, args: &[&str], _text: &str) -> Option<String> {
             let (n, sum, xor) = get_val(acc);
             Some(format!("{n} {sum:016x} {xor:016x}"))
         },
+        ("treehashtask", [s, c, h, l, i]) => {
+            // the sub-tree under the i-th second instruction (the instruction the generator puts
+            // at slot B0; order: colour, then shift L before R, then state - tree.rs make_instrs):
+            // the whole tree is generated, only that sub-tree's programs are hashed
+            let params = (num(s), num(c));
+            let (ms, mc) = (num(s).min(3), num(c).min(3));
+            let idx = num(i);
+            let per_color = 2 * ms;
+            if idx >= mc * per_color {
+                return Some("BAD-ARGS".to_owned());
+            }
+            let want = (idx / per_color, (idx % per_color) / ms == 1, idx % ms);
+            let acc = set_val((0_u64, 0_u64, 0_u64));
+            build_tree(params, num(h) != 0, num(l), &|comp| {
+                if comp.get(&(1, 0)) == Some(&want) {
+                    let x = fnv(&comp.show(Some(params)));
+                    let mut a = access(&acc);
+                    a.0 += 1;
+                    a.1 = a.1.wrapping_add(x);
+                    a.2 ^= x;
+                }
+            });
+            let (n, sum, xor) = get_val(acc);
+            Some(format!("{n} {sum:016x} {xor:016x}"))
+        },
         ("treethreadshash", [t, s, c, h, l]) => {
             // the same harvest as `treehash`, under a pool with that many threads
             let params = (num(s), num(c));
